@@ -29,6 +29,26 @@ type faultRepo struct {
 	def.Repository
 	failNext bool
 	faulted  bool
+	// corefault family: the k-th MarkAsDispatched that reaches the core fails: "cb" without effect, "ca" AFTER taking
+	// effect (the wrapper above then returns the error and does not call its timer hook); "-" = no fault
+	markPlan []string
+}
+
+func (f *faultRepo) MarkAsDispatched(ctx context.Context, id string) error {
+	kind := "-"
+	if len(f.markPlan) > 0 {
+		kind, f.markPlan = f.markPlan[0], f.markPlan[1:]
+	}
+	switch kind {
+	case "cb":
+		return errInjected
+	case "ca":
+		if err := f.Repository.MarkAsDispatched(ctx, id); err != nil {
+			return err
+		}
+		return errInjected
+	}
+	return f.Repository.MarkAsDispatched(ctx, id)
 }
 
 func (f *faultRepo) GetNext(ctx context.Context) (def.Task, error) {
